@@ -225,6 +225,14 @@ def base_problems(name, tier):
                 if scoped:
                     spec["edge_params"] = {e: D.base_params(terms, shift=n + 1) for n, e in enumerate(edges)}
                 out.append(spec)
+            if D.spec_is_directed_nuc(name, terms) and nt <= 4:
+                # nearly defective rate matrix inside the parameter bounds (one-way chain of equal large rates, the rest on
+                # the lower bound): exp(Qt) is right only through the fallback of the default exponentiation setting
+                chain = {"T>C", "C>A", "A>G"}
+                for big in (1e3, 1e6):
+                    out.append({"model": name, "model_kw": None, "kind": kind, "tree": tree, "tips": F.tip_names(tree),
+                                "lengths": D.base_lengths(edges), "params": {t: (big if t in chain else 1e-6) for t in terms}, "pi": pis[0],
+                                "cols": [list(c) for c in motif_columns(kind, nt, ncols)], "class": "equal/nearly defective Q"})
     return out
 
 
@@ -262,6 +270,11 @@ def transforms(spec, tier):
     for e in edges:
         for f in FRACTIONS:
             out.append({"family": "split", "edge": e, "frac": f})
+    if spec["kind"] == "nuc":
+        # the same split, lnL read again after the function was used for something else (ancestral reconstruction pins
+        # motifs at every node in turn): the single-child node keeps no trace of it
+        for e in edges:
+            out.append({"family": "split", "edge": e, "frac": FRACTIONS[0], "after": "reconstruct_ancestral_seqs"})
     # the library's own tree operations (the families above build the transformed tree in the driver)
     if not spec.get("edge_params"):
         out.append({"family": "library", "op": "lengths_from_tree", "tiny": False})
@@ -316,7 +329,7 @@ def lnl_of_library_tree(spec, tr):
 
 
 # ----------------------------------------------------------------------------- evaluation
-def lnl_of(spec, tree=None, lengths=None, eparams=None, tips_order=None, cols=None):
+def lnl_of(spec, tree=None, lengths=None, eparams=None, tips_order=None, cols=None, after=None):
     s = dict(spec)
     if tree is not None:
         s["tree"] = tree
@@ -327,6 +340,11 @@ def lnl_of(spec, tree=None, lengths=None, eparams=None, tips_order=None, cols=No
     cols = cols if cols is not None else spec["cols"]
     aln = make_aln(spec["kind"], tips_order or spec["tips"], spec["tips"], cols)
     lf = D.make_lf(s, aln=aln)
+    if after:
+        first = float(lf.lnL)
+        getattr(lf, after)()
+        again = float(lf.lnL)
+        return again if again != first else first
     return float(lf.lnL)
 
 
@@ -365,7 +383,7 @@ def apply_transform(spec, tr, base_cache):
         return lnl_of(spec, tree=t, lengths=nl, eparams=ne), base
     if fam == "split":
         t, nl, ne = split_edge(tree, lengths, ep, tr["edge"], tr["frac"])
-        return lnl_of(spec, tree=t, lengths=nl, eparams=ne), base
+        return lnl_of(spec, tree=t, lengths=nl, eparams=ne, after=tr.get("after")), base
     raise ValueError(fam)
 
 
@@ -380,6 +398,8 @@ def sig_for(spec, tr):
     if fam == "reroot":
         where = "at internal node" if "node" in tr else "on edge"
         return f"lnL changes under re-rooting {where} [{kind}; {scope}]"
+    if fam == "split" and tr.get("after"):
+        return f"lnL of a tree with a split edge is different after {tr['after']}() [{kind}; {scope}]"
     if fam == "split":
         return f"lnL changes when an edge is split [{kind}; {scope}]"
     if fam == "library":
